@@ -319,8 +319,10 @@ namespace cnl {
             [[nodiscard]] constexpr auto operator()(Lhs const& lhs, Rhs const& rhs) const
             {
                 using traits = operator_overflow_traits<divide_op, Lhs, Rhs>;
-                return (has_most_negative_number<Lhs>::value) ? rhs == -1 && lhs == traits::lowest()
-                                                              : false;
+                // only a signed divisor can be -1 (an unsigned one compares equal to -1 at its maximum)
+                return (has_most_negative_number<Lhs>::value && numbers::signedness_v<Rhs>)
+                             ? rhs == -1 && lhs == traits::lowest()
+                             : false;
             }
         };
 
